@@ -34,7 +34,8 @@ KIND_LONG = {"nodes": "nodes", "faces": "face centers", "edges": "edge centers"}
 KIND_SHORT = {v: k for k, v in KIND_LONG.items()}
 
 DERIVE = {
-    "isel_face": lambda g: g.isel(n_face=[2, 0, 1]),
+    # the last faces and the first one: edges whose lower-numbered face is dropped while the higher one is kept
+    "isel_face": lambda g: g.isel(n_face=[int(g.n_face) - 1, 0, int(g.n_face) - 2]),
     "isel_node": lambda g: g.isel(n_node=[1, 3]),
     "isel_edge": lambda g: g.isel(n_edge=[0, 2]),
     "xsec": lambda g: g.cross_section.constant_latitude(12.5),
